@@ -142,7 +142,7 @@ macro_rules! h_var {
                 assert!(v[i] >= 0.0, "var: entries are non-negative on this value set");
             }
             // vacuity guard: a constant first line (variance 0) and a last line that is not constant
-            kani::cover!(v[0] == 0.0 && v[N - 1] > 1.0);
+            kani::cover!((N == 1 && v[0] > 1.0) || (N > 1 && v[0] == 0.0 && v[N - 1] > 1.0));
         }
     };
 }
@@ -150,6 +150,9 @@ h_var!(c03_stats_var_2x3_axis0, 2, 3, 0u8, 8);
 h_var!(c03_stats_var_2x3_axis1, 2, 3, 1u8, 8);
 h_var!(c03_stats_var_3x2_axis0, 3, 2, 0u8, 8);
 h_var!(c03_stats_var_3x2_axis1, 3, 2, 1u8, 8);
+// one-row and one-column matrices (1xN / Nx1 are named in the property; a shape test on the wrong dimension hides there)
+h_var!(c03_stats_var_1x3_axis1, 1, 3, 1u8, 8);
+h_var!(c03_stats_var_3x1_axis0, 3, 1, 0u8, 8);
 
 // ---------------------------------------------------------------------------------------------- std
 macro_rules! h_std {
